@@ -1016,7 +1016,14 @@ def desugar_get_or_insert_with(toks, log):
     return toks
 
 
-STR_CONST_NAMES = set()
+import threading
+_TLS = threading.local()    # units are generated by several threads of one process (check, driver): per-thread state
+
+
+def str_const_names():
+    if not hasattr(_TLS, 'names'):
+        _TLS.names = set()
+    return _TLS.names
 
 
 def desugar_str_match(toks, log):
@@ -1052,7 +1059,7 @@ def desugar_str_match(toks, log):
         ok = True
         while i is not None and i < close:
             pat = toks[i]
-            if not ((pat.kind == 'str') or (pat.kind == 'ident' and pat.text in STR_CONST_NAMES) or (pat.kind in ('ident', 'punct') and pat.text == '_')):
+            if not ((pat.kind == 'str') or (pat.kind == 'ident' and pat.text in str_const_names()) or (pat.kind in ('ident', 'punct') and pat.text == '_')):
                 ok = False
                 break
             a1 = _next_sig(toks, i)
